@@ -11,6 +11,10 @@ shutil.rmtree(clone, ignore_errors=True)
 subprocess.run(["git", "clone", "-q", "/repo", clone], check=True)
 env = dict(os.environ, GOFLAGS="-mod=mod", GOPROXY="off")
 res = {"id": sid}
+# VERIFY_ONLY_PKG=./tests/integration/ restricts the baseline comparison to one package (used to repeat a package
+# whose run was disturbed, e.g. killed by a foreign process or timed out under load)
+only = os.environ.get("VERIFY_ONLY_PKG", "")
+res["baseline_scope"] = only or "./..."
 def sh(cmd, **kw):
     return subprocess.run(cmd, shell=True, cwd=clone, env=env, stdout=subprocess.PIPE, stderr=subprocess.STDOUT, text=True, **kw)
 r = sh(f"git apply {patch}")
@@ -20,7 +24,7 @@ res["builds"] = r.returncode == 0
 # baseline suite with the change (main module only: the second module is in always_fail)
 raw = f"/var/tmp/seedval-{sid}.raw"
 with open(raw, "w") as f:
-    subprocess.run("go test -mod=mod -json -vet=off -count=1 -timeout 25m ./...", shell=True, cwd=clone, env=env, stdout=f, stderr=subprocess.STDOUT)
+    subprocess.run(f"go test -mod=mod -json -vet=off -count=1 -timeout 90m {only or './...'}", shell=True, cwd=clone, env=env, stdout=f, stderr=subprocess.STDOUT)
 got = {}
 for line in open(raw, errors="replace"):
     if line.startswith("{"):
@@ -30,7 +34,9 @@ for line in open(raw, errors="replace"):
             continue
         if e.get("Action") in ("pass", "fail", "skip") and e.get("Test"):
             got[f"{e['Package']}::{e['Test']}"] = e["Action"]
-missing = [t for t in base["stable_pass"] if got.get(t) != "pass"]
+scope = "github.com/cosmos/interchain-security/v7/" + only.strip("./") + "::" if only else ""
+missing = [t for t in base["stable_pass"] if t.startswith(scope) and got.get(t) != "pass"]
+res["baseline_tests_compared"] = len([t for t in base["stable_pass"] if t.startswith(scope)])
 res["baseline_not_passing_with_change"] = missing[:10]
 res["baseline_passes_with_change"] = not missing
 shutil.copy(demo, os.path.join(clone, dest))
